@@ -456,6 +456,28 @@ pub fn prop_lines(bytes: &[u8]) -> String {
     if m2.breaks.len() != m1.breaks.len() || m2.custom_combo_colors.len() != m1.custom_combo_colors.len() {
         return "FAIL breaks / colours lost".into();
     }
+    // no line is misread as a different record: every object comes back as the same kind, and a slider with the same
+    // set of segment types, degrees included (lists with a typed point that repeats its predecessor are ambiguous in
+    // the text format — finding F17, judged by C02 — and are left out here)
+    for (i, (a, b)) in m1.hit_objects.iter().zip(&m2.hit_objects).enumerate() {
+        if std::mem::discriminant(&a.kind) != std::mem::discriminant(&b.kind) {
+            return format!("FAIL object {i} is read back as a different kind");
+        }
+        if let (HitObjectKind::Slider(sa), HitObjectKind::Slider(sb)) = (&a.kind, &b.kind) {
+            if typed_point_repeats_predecessor(a) {
+                continue;
+            }
+            let types = |s: &rosu_map::section::hit_objects::HitObjectSlider| {
+                let mut t: Vec<String> = s.path.control_points().iter().filter_map(|c| c.path_type.map(|t| format!("{t:?}"))).collect();
+                t.sort();
+                t.dedup();
+                t
+            };
+            if types(sa) != types(sb) {
+                return format!("FAIL slider {i}: segment types {:?} are read back as {:?}", types(sa), types(sb));
+            }
+        }
+    }
     if m2.control_points.timing_points.len() != m1.control_points.timing_points.len() {
         // F22: two stored timing points whose times differ by less than the decoder's grouping epsilon (possible only when
         // their lines were not adjacent in the input): the encoder writes them next to each other and the decoder merges them
